@@ -431,6 +431,21 @@ example : ∃ x, ReachableX cleanParams false 1 cleanTable x ∧ x.sys.pc 1 = .d
   obtain ⟨x, hx, h⟩ := e
   exact ⟨x, runXSteps_reachable _ _ _ _ _ _ _ .init hx, h⟩
 
+/-! ### the request entry -/
+
+/-- the record ptt.NewRegister hands to SetupNewUser is built for that request alone (regenerated on every
+run): no other request can change the id a registration works on. -/
+theorem source_request_record_is_local : sourceRequestRecordLocal = true := by decide
+
+/-- what that buys in the model: the id a registration works on is the constant `P.idOf t` of its own
+request, so the id a successful registration leaves in its slot — index and record — is its request's. -/
+theorem success_carries_own_id (P : Params) (tbl0 : Nat → Option Nat) (pk : PickOK P) (hcul : P.checkUnderLock = true)
+    (h0 : ∀ i j a, tbl0 i = some a → tbl0 j = some a → i = j) (hb : ∀ k, P.cap ≤ k → tbl0 k = none)
+    (s : Sys) (h : Reachable P tbl0 s) (t k : Nat) (ht : s.pc t = .done (.ok k)) :
+    s.table k = some (P.idOf t) ∧ s.disk k = some (P.idOf t) :=
+  let r := success_recorded P tbl0 pk hcul h0 hb s h t k ht
+  ⟨r.1, r.2.1⟩
+
 /-- the slot search the driver uses satisfies the assumption made on `pick`. -/
 theorem pickLowest_ok (cap : Nat) (idOf : Nat → Nat) (b : Bool) :
     PickOK { cap := cap, idOf := idOf, pick := pickLowest cap, checkUnderLock := b } where
